@@ -8,10 +8,12 @@
      at t, stop(t) = Stop returned at t. *)
 EXTENDS Integers, Sequences, FiniteSets, TLC, Json
 Trace == ndJsonDeserialize("trace.ndjson")
-VARIABLES d, j, lastTick, stoppedAt, l
-vars == <<d, j, lastTick, stoppedAt, l>>
+VARIABLES d, j, pd, pj, rat, lastTick, stoppedAt, l
+vars == <<d, j, pd, pj, rat, lastTick, stoppedAt, l>>
+\* pd, pj: the settings before the last Reset, rat: when that Reset was recorded. A tick whose timestamp is not later than
+\* the Reset may still have been sent under the old settings (the Reset and the timer's callback race).
 Ev == Trace[l]
-Init == d = 0 /\ j = 0 /\ lastTick = -1 /\ stoppedAt = -1 /\ l = 1 /\ TLCSet(1, 0)
+Init == d = 0 /\ j = 0 /\ pd = 0 /\ pj = 0 /\ rat = -1 /\ lastTick = -1 /\ stoppedAt = -1 /\ l = 1 /\ TLCSet(1, 0)
 Un(vs) == UNCHANGED vs
 \* when does the context end (deadline or cancellation), -1 = never
 CtxEnd(e) == IF e.dl >= 0 /\ e.cancelAt >= 0 THEN (IF e.dl < e.cancelAt THEN e.dl ELSE e.cancelAt)
@@ -34,18 +36,18 @@ RSleepOK(e) == /\ (e.res = "nil" => (e.d <= 0 \/ e.t1 - e.t0 >= e.d))
                /\ e.res \in {"nil", "ctx", "toosoon"}
 Next ==
   /\ l <= Len(Trace) /\ l' = l + 1
-  /\ CASE Ev.ev = "reset" -> d' = 0 /\ j' = 0 /\ lastTick' = -1 /\ stoppedAt' = -1
-       [] Ev.ev = "sleep" -> (SleepOK(Ev) = TRUE) /\ Un(<<d, j, lastTick, stoppedAt>>)
-       [] Ev.ev = "rsleep" -> (RSleepOK(Ev) = TRUE) /\ Un(<<d, j, lastTick, stoppedAt>>)
+  /\ CASE Ev.ev = "reset" -> d' = 0 /\ j' = 0 /\ pd' = 0 /\ pj' = 0 /\ rat' = -1 /\ lastTick' = -1 /\ stoppedAt' = -1
+       [] Ev.ev = "sleep" -> (SleepOK(Ev) = TRUE) /\ Un(<<d, j, pd, pj, rat, lastTick, stoppedAt>>)
+       [] Ev.ev = "rsleep" -> (RSleepOK(Ev) = TRUE) /\ Un(<<d, j, pd, pj, rat, lastTick, stoppedAt>>)
        \* any d > 0 and 0 <= jitter < d is accepted without a panic
-       [] Ev.ev = "new" -> Ev.panic = 0 /\ d' = Ev.d /\ j' = Ev.j /\ Un(<<lastTick, stoppedAt>>)
-       [] Ev.ev = "jreset" -> Ev.panic = 0 /\ d' = Ev.d /\ j' = Ev.j /\ stoppedAt' = -1 /\ Un(<<lastTick>>)
+       [] Ev.ev = "new" -> Ev.panic = 0 /\ d' = Ev.d /\ j' = Ev.j /\ pd' = Ev.d /\ pj' = Ev.j /\ rat' = -1 /\ Un(<<lastTick, stoppedAt>>)
+       [] Ev.ev = "jreset" -> Ev.panic = 0 /\ d' = Ev.d /\ j' = Ev.j /\ pd' = d /\ pj' = j /\ rat' = Ev.t /\ stoppedAt' = -1 /\ Un(<<lastTick>>)
        [] Ev.ev = "tick" ->
-            /\ (lastTick >= 0 => Ev.ts - lastTick >= d - j)          \* consecutive ticks at least d - jitter apart
+            /\ (lastTick >= 0 => Ev.ts - lastTick >= (IF Ev.ts <= rat /\ pd - pj < d - j THEN pd - pj ELSE d - j))   \* consecutive ticks at least d - jitter apart
             /\ (stoppedAt >= 0 => Ev.ts <= stoppedAt)               \* no tick is sent after Stop returned
-            /\ lastTick' = Ev.ts /\ Un(<<d, j, stoppedAt>>)
-       [] Ev.ev = "stop" -> stoppedAt' = Ev.t /\ Un(<<d, j, lastTick>>)
-       [] Ev.ev \in {"adv", "q", "leak"} -> Un(<<d, j, lastTick, stoppedAt>>)
+            /\ lastTick' = Ev.ts /\ Un(<<d, j, pd, pj, rat, stoppedAt>>)
+       [] Ev.ev = "stop" -> stoppedAt' = Ev.t /\ Un(<<d, j, pd, pj, rat, lastTick>>)
+       [] Ev.ev \in {"adv", "q", "leak"} -> Un(<<d, j, pd, pj, rat, lastTick, stoppedAt>>)
 Spec == Init /\ [][Next]_vars
 HWM == TLCSet(1, IF TLCGet(1) < l THEN l ELSE TLCGet(1))
 Accepted == PrintT(<<"HWM", TLCGet(1)>>) /\ TLCGet(1) = Len(Trace) + 1
